@@ -160,6 +160,10 @@ class DataMat:
             return Tup([sp.Integer(len(self.rows)), sp.Symbol("NVOL", positive=True, integer=True)])
         if name == "astype":
             return BoundLib("identity_method", self)
+        if name == "dtype":
+            # the element type of the supplied columns: what is done with it is judged by R09.5b (dtype provenance), the fold
+            # itself works on exact values
+            return LibV("dtype.of.supplied.columns")
         raise ev.err(f"data block attribute {name}", node, mod)
 
 
@@ -371,7 +375,10 @@ def run_fill(model, sc: Scenario, ctx=None):
                 return BoundLib(f"solmat.{name}", self)
             if name == "shape":
                 return Tup([sp.Integer(len(self.rows)), sp.Symbol("NVOL", positive=True, integer=True)])
-            if name in ("T", "copy", "astype"):
+            if name in ("copy", "astype"):
+                # values are exact in the model; a cast to a type taken from the supplied columns is judged by R09.5b
+                return BoundLib("identity_method", self)
+            if name == "T":
                 raise ev.err(f"solution matrix attribute {name}", node, mod)
             raise ev.err(f"solution matrix attribute {name}", node, mod)
 
@@ -560,7 +567,7 @@ def run_fill(model, sc: Scenario, ctx=None):
         "numpy.linalg.lstsq": lstsq, "numpy.allclose": allclose,
         "numpy.isclose": isclose, "boolmat.any": boolred("any"), "boolmat.all": boolred("all"),
         "DataFrame.items": df_items, "DataFrame.drop": df_drop, "identity": lambda ev, a, k: a[0],
-        "identity_method": lambda ev, a, k: a[0], "ndarray.astype": astype,
+        "identity_method": lambda ev, a, k: (k.all(), a[0])[1], "ndarray.astype": astype,
         "collections.OrderedDict": lambda ev, a, k: __import__("cijsa.sym", fromlist=["lib_dict"]).lib_dict(ev, a, k, None, None),
     }
     ev = Ev(model, {}, intr, ctx=ctx)
